@@ -119,6 +119,14 @@ Section Proofs.
 
   Definition verified (pid : id) : Prop :=
     forall t b, In (t, pid, b) entries -> exists d, read_blob pid b = Some d /\ hash d = ib_id b.
+  (* every COPY (in whatever pack of the index) of every blob the pack lists reads back and hashes *)
+  Definition kverified (pid : id) : Prop :=
+    forall t b, In (t, pid, b) entries ->
+      forall p' b', In (t, p', b') entries -> ib_id b' = ib_id b ->
+        exists d, read_blob p' b' = Some d /\ hash d = ib_id b'.
+
+  Lemma kverified_verified pid : kverified pid -> verified pid.
+  Proof. intros H t b Hin. exact (H t b Hin pid b Hin eq_refl). Qed.
 
   Lemma lookup_in t i p b : lookup t i = Some (p, b) -> In (t, p, b) entries /\ ib_id b = i.
   Proof.
@@ -132,12 +140,18 @@ Section Proofs.
     destruct e as [[t' p'] b']. simpl in *. subst. auto.
   Qed.
 
+  Lemma candidates_in t i p b : In (t, p, b) (candidates B st t i) -> In (t, p, b) entries /\ ib_id b = i.
+  Proof.
+    unfold candidates. intro H. apply filter_In in H. destruct H as [Hin Hk]. split; [assumption|].
+    unfold key_match in Hk. apply andb_true_iff in Hk. destruct Hk as [_ Hk]. apply N.eqb_eq in Hk. exact Hk.
+  Qed.
+
   Lemma entries_in t pid b : In (t, pid, b) entries ->
-    exists p, In p (index_packs B st) /\ ip_id p = pid /\ In b (ip_blobs p).
+    exists p, In p (index_packs B st) /\ ip_id p = pid /\ In b (ip_blobs p) /\ t = ptype p.
   Proof.
     unfold Model.entries. rewrite in_flat_map. intros [p [Hp He]].
     unfold entries_of_pack in He. apply in_map_iff in He. destruct He as [b' [Heq Hb]].
-    inversion Heq; subst. eauto.
+    inversion Heq; subst. exists p. auto.
   Qed.
 
   (* check's own index is fed with the `packs` sections only (fact regenerated from check.rs) *)
@@ -153,14 +167,34 @@ Section Proofs.
   Lemma map_const_nil {A C} (c : C) (l : list A) : map (fun _ => c) l = [] -> l = [].
   Proof. destruct l; simpl; [reflexivity|discriminate]. Qed.
 
-  (* what a clean check establishes about the packs the tree walk collected *)
+  Lemma key_eqb_refl k : key_eqb k k = true.
+  Proof. destruct k as [[|] i]; unfold key_eqb; simpl; apply N.eqb_refl. Qed.
+
+  (* read_data reads every pack that holds a copy of a blob of a collected pack (fact regenerated
+     from check.rs: x_reads_all_copies) *)
+  Lemma copies_are_read used p q b b' :
+    In p (index_packs B st) -> mem_id (ip_id p) used = true -> In b (ip_blobs p) ->
+    In b' (ip_blobs q) -> ptype q = ptype p -> ib_id b' = ib_id b ->
+    is_read B st used q = true.
+  Proof.
+    intros Hp Hm Hb Hb' Ht Hi. unfold is_read. apply orb_true_iff. right.
+    change Extracted.x_reads_all_copies with true. simpl.
+    apply existsb_exists. exists (ptype q, ib_id b'). split.
+    - unfold pack_keys. apply in_map_iff. exists b'. auto.
+    - apply existsb_exists. exists (ptype p, ib_id b). split.
+      + unfold used_keys. apply in_flat_map. exists p. split; [assumption|]. rewrite Hm.
+        unfold pack_keys. apply in_map_iff. exists b. auto.
+      + rewrite Ht, Hi. apply key_eqb_refl.
+  Qed.
+
+  (* what a clean full check establishes about the packs the tree walk collected *)
   Lemma check_clean_verified fuel :
     check fuel = Some [] ->
     st_meta_ok st = true /\
     exists used, check_trees B blen parse st fuel = Some ([], used) /\
-                 forall pid, In pid used -> verified pid.
+                 forall pid, In pid used -> kverified pid.
   Proof.
-    unfold Model.check. destruct (st_meta_ok st); simpl; [|discriminate].
+    unfold Model.check, check_with. destruct (st_meta_ok st); simpl; [|discriminate].
     destruct (negb (st_index_ok st) && Extracted.x_unreadable_index_aborts_check); [discriminate|].
     destruct (check_trees B blen parse st fuel) as [[et used]|]; [|discriminate].
     intro H. injection H as H0.
@@ -169,13 +203,16 @@ Section Proofs.
     split; [reflexivity|]. exists used. split; [rewrite Het; reflexivity|].
     unfold check_packs in Hcp. apply app_eq_nil in Hcp. destruct Hcp as [Hix Hcp].
     apply app_eq_nil in Hcp. destruct Hcp as [_ Hmiss]. apply map_const_nil in Hmiss.
-    intros pid Hused t b Hin.
-    destruct (entries_in t pid b Hin) as [p [Hp [Hid Hb]]].
-    pose proof (flat_map_nil _ _ Hix _ (index_packs_all p Hp)) as Hie.
-    pose proof (flat_map_nil _ _ Hpk _ Hp) as Hck. simpl in Hck.
-    rewrite Hmiss in Hck. simpl in Hck.
+    intros pid Hused t b Hin p' b' Hin' Hid'.
+    destruct (entries_in t pid b Hin) as [p [Hp [Hid [Hb Htp]]]].
+    destruct (entries_in t p' b' Hin') as [q [Hq [Hidq [Hbq Htq]]]].
     assert (Hm : mem_id (ip_id p) used = true) by (apply mem_id_In; rewrite Hid; assumption).
-    rewrite Hm in Hck. subst pid. eapply pack_verified; eauto.
+    assert (Hrd : In q (read_list B st used)).
+    { unfold read_list. apply filter_In. split; [assumption|]. rewrite Hmiss. simpl.
+      apply (copies_are_read used p q b b'); auto. congruence. }
+    pose proof (flat_map_nil _ _ Hix _ (index_packs_all q Hq)) as Hie.
+    pose proof (flat_map_nil _ _ Hpk _ Hrd) as Hck.
+    subst p'. eapply pack_verified; eauto.
   Qed.
 
   Lemma file_errs_ok c : forall ps, file_errs B st c = ([], ps) ->
@@ -191,28 +228,54 @@ Section Proofs.
     - inversion H as [[H1 H2]]. apply app_eq_nil in H1. destruct H1 as [_ H1]. discriminate.
   Qed.
 
-  Lemma fetch_verified t i p b : lookup t i = Some (p, b) -> verified p ->
-    exists d, fetch B blen st lookup t i = Some d /\ hash d = i.
+  (* [sel] : the answer of another index built from the same entries (any copy of a key) *)
+  Definition sel_ok (sel : selector) : Prop :=
+    forall t i, match sel t i with
+                | Some (p, b) => In (t, p, b) (candidates B st t i)
+                | None => candidates B st t i = [] end.
+
+  Lemma lookup_sel_ok : sel_ok lookup.
   Proof.
-    intros Hl Hv. destruct (lookup_in t i p b Hl) as [Hin Hid].
-    destruct (Hv t b Hin) as [d [Hr Hh]]. exists d. unfold fetch. rewrite Hl. split; [assumption|congruence].
+    intros t i. unfold Model.lookup. destruct (candidates B st t i) as [|e r] eqn:E; [reflexivity|].
+    assert (Hin : In e (candidates B st t i)) by (rewrite E; left; reflexivity).
+    unfold candidates in Hin. apply filter_In in Hin. destruct Hin as [_ Hk].
+    unfold key_match in Hk. apply andb_true_iff in Hk. destruct Hk as [Hk _]. apply btype_eqb_eq in Hk.
+    destruct e as [[t' p] b]. simpl in *. subst t'. left. reflexivity.
   Qed.
 
-  (* the walk of one tree found nothing ==> the executable "restores correctly" holds below it *)
-  Lemma walk_correct : forall fuel i ps strict,
-    walk fuel i = Some ([], ps) ->
-    (forall p, In p ps -> verified p) ->
-    (strict = true -> forall p b d, lookup BTree i = Some (p, b) -> read_blob p b = Some d -> hash d = i) ->
-    correct lookup strict fuel i = Some true.
+  Lemma fetch_kverified sel t i p b : sel_ok sel -> lookup t i = Some (p, b) -> kverified p ->
+    exists d, fetch B blen st sel t i = Some d /\ hash d = i.
   Proof.
-    induction fuel as [|f IH]; intros i ps strict Hw Hv Hs; [discriminate|].
-    simpl in Hw. simpl. unfold load_tree in Hw. unfold fetch.
-    destruct (lookup BTree i) as [[p b]|] eqn:El; [|inversion Hw].
-    destruct (read_blob p b) as [d|] eqn:Er; [|inversion Hw].
+    intros Hs Hl Hv. destruct (lookup_in t i p b Hl) as [Hin Hid].
+    specialize (Hs t i). unfold fetch. destruct (sel t i) as [[p' b']|].
+    - destruct (candidates_in t i p' b' Hs) as [Hin' Hid'].
+      destruct (Hv t b Hin p' b' Hin') as [d [Hr Hh]]; [congruence|].
+      exists d. split; [assumption|congruence].
+    - exfalso. unfold Model.lookup in Hl. rewrite Hs in Hl. discriminate.
+  Qed.
+
+  (* the walk of one tree found nothing ==> the executable "restores correctly" holds below it, for
+     any index answer [sel]; [Hd]: two contents fetched for one tree id that both hash to it are the
+     same content (trivial for sel = lookup, collision-freedom in general) *)
+  Lemma walk_correct sel : sel_ok sel ->
+    (forall i d d', fetch B blen st lookup BTree i = Some d -> fetch B blen st sel BTree i = Some d' ->
+                    hash d = i -> hash d' = i -> d' = d) ->
+    forall fuel i ps,
+    walk fuel i = Some ([], ps) ->
+    (forall p, In p ps -> kverified p) ->
+    (exists p b, lookup BTree i = Some (p, b) /\ kverified p) ->
+    correct sel true fuel i = Some true.
+  Proof.
+    intros Hsel Hd. induction fuel as [|f IH]; intros i ps Hw Hv Hs; [discriminate|].
+    simpl in Hw. simpl. unfold load_tree in Hw.
+    destruct Hs as [p0 [b0 [El0 Hv0]]].
+    destruct (fetch_kverified sel BTree i p0 b0 Hsel El0 Hv0) as [d' [Hf' Hh']].
+    destruct (fetch_kverified lookup BTree i p0 b0 lookup_sel_ok El0 Hv0) as [d [Hf Hh]].
+    assert (Hdd : d' = d) by (eapply Hd; eauto). subst d'.
+    rewrite Hf'. unfold fetch in Hf. rewrite El0 in Hf, Hw. rewrite Hf in Hw.
     destruct (parse d) as [t|] eqn:Ep; [|inversion Hw].
-    assert (H0 : (negb strict || (hash d =? i)) = true).
-    { destruct strict; simpl; [|reflexivity]. apply N.eqb_eq. eapply Hs; eauto. }
-    rewrite H0. clear H0 Hs El Er Ep.
+    assert (H0 : (hash d =? i) = true) by (apply N.eqb_eq; assumption).
+    rewrite H0. clear H0 El0 Hf Hf' Ep Hv0.
     revert ps Hw Hv. induction t as [|n t IHt]; intros ps Hw Hv; [reflexivity|].
     simpl in Hw. simpl.
     match type of Hw with context [fold_right ?F ?A t] => destruct (fold_right F A t) as [[es ps']|] eqn:Ef end; [|discriminate].
@@ -223,9 +286,9 @@ Section Proofs.
       rewrite (IHt ps' eq_refl) by (intros q Hq; apply Hv; subst ps; apply in_or_app; right; assumption).
       simpl. f_equal. apply forallb_forall. intros ci Hci.
       destruct (file_errs_ok c p1 Efe ci Hci) as [q [b' [Hl Hq]]].
-      destruct (fetch_verified BData ci q b' Hl) as [d' [Hf Hh]].
+      destruct (fetch_kverified sel BData ci q b' Hsel Hl) as [d'' [Hf Hh'']].
       { apply Hv. subst ps. apply in_or_app. left. assumption. }
-      unfold fetch in Hf. rewrite Hf. apply N.eqb_eq. assumption.
+      rewrite Hf. apply N.eqb_eq. assumption.
     - inversion Hw.
     - (* directory *)
       destruct (walk f s) as [[e2 p2]|] eqn:Ews; [|destruct (if s =? 0 then _ else _); discriminate].
@@ -234,13 +297,10 @@ Section Proofs.
       + destruct (lookup BTree s) as [[q bq]|] eqn:Els; [|inversion Hw].
         inversion Hw as [[H1 H2]]; clear Hw. simpl in H1. apply app_eq_nil in H1. destruct H1 as [H1 H1']. subst e2 es.
         rewrite (IHt ps' eq_refl) by (intros x Hx; apply Hv; subst ps; simpl; right; apply in_or_app; right; assumption).
-        rewrite (IH s p2 true Ews).
+        rewrite (IH s p2 Ews).
         * reflexivity.
         * intros x Hx. apply Hv. subst ps. simpl. right. apply in_or_app. left. assumption.
-        * intros _ p' b' d' Hl' Hr'. rewrite Els in Hl'. inversion Hl'; subst p' b'.
-          assert (Hvq : verified q) by (apply Hv; subst ps; left; reflexivity).
-          destruct (lookup_in BTree s q bq Els) as [Hin Hid].
-          destruct (Hvq BTree bq Hin) as [d'' [Hr'' Hh'']]. rewrite Hr' in Hr''. inversion Hr''; subst. assumption.
+        * exists q, bq. split; [exact Els|]. apply Hv. subst ps. left. reflexivity.
     - inversion Hw.
     - inversion Hw as [[H1 H2]]; subst. rewrite (IHt ps eq_refl Hv). reflexivity.
   Qed.
@@ -279,19 +339,31 @@ Section Proofs.
     - intros p b Hl. apply in_or_app. left. eapply root_packs_in; eauto.
   Qed.
 
-  (* MAIN: a clean full check implies that every snapshot restores completely and correctly:
-     every tree below every root (the root included) is fetched, decrypts, decodes, parses and
-     hashes to the id it is referenced by; so does every file chunk *)
+  (* MAIN: a clean full check implies that every snapshot restores completely and correctly through
+     ANY index answer [sel]: every tree below every root (the root included) is fetched, decrypts,
+     decodes, parses and hashes to the id it is referenced by; so does every file chunk *)
+  Theorem check_clean_implies_restorable_gen fuel sel : sel_ok sel ->
+    (forall i d d', fetch B blen st lookup BTree i = Some d -> fetch B blen st sel BTree i = Some d' ->
+                    hash d = i -> hash d' = i -> d' = d) ->
+    check fuel = Some [] ->
+    forall r, In r (st_roots st) -> correct sel true fuel r = Some true.
+  Proof.
+    intros Hsel Hd Hc r Hr. destruct (check_clean_verified fuel Hc) as [_ [used [Ht Hv]]].
+    destruct (check_trees_roots fuel used Ht r Hr) as [[ps [Hw Hi]] Hroot].
+    apply (walk_correct sel Hsel Hd fuel r ps Hw); [intros p Hp; apply Hv, Hi, Hp|].
+    destruct (walk fuel r) as [[e0 p0]|] eqn:E; [|discriminate].
+    destruct fuel as [|f]; [discriminate|]. simpl in E. unfold load_tree in E.
+    destruct (lookup BTree r) as [[p b]|] eqn:El.
+    - exists p, b. split; [reflexivity|]. apply Hv. eapply Hroot; eauto.
+    - inversion E; subst. discriminate.
+  Qed.
+
   Theorem check_clean_implies_restorable_lemma fuel :
     check fuel = Some [] ->
     forall r, In r (st_roots st) -> correct lookup true fuel r = Some true.
   Proof.
-    intros Hc r Hr. destruct (check_clean_verified fuel Hc) as [_ [used [Ht Hv]]].
-    destruct (check_trees_roots fuel used Ht r Hr) as [[ps [Hw Hi]] Hroot].
-    apply (walk_correct fuel r ps true Hw); [intros p Hp; apply Hv, Hi, Hp|].
-    intros _ p b d Hl Hrd. assert (Hvp : verified p) by (apply Hv; eapply Hroot; eauto).
-    destruct (lookup_in BTree r p b Hl) as [Hin Hid].
-    destruct (Hvp BTree b Hin) as [d' [Hr' Hh']]. rewrite Hrd in Hr'. inversion Hr'; subst. assumption.
+    apply check_clean_implies_restorable_gen; [apply lookup_sel_ok|].
+    intros i d d' H1 H2 _ _. congruence.
   Qed.
 
 End Proofs.
